@@ -48,6 +48,8 @@ type clusterCache struct {
 	metadataCerts           *metadataCerts // metadata certificates of proxy
 	endpointBuilder         *endpoints.EndpointBuilder
 	dnsLookupFamily         string // DNS lookup family selected from the proxy's own addresses (STRICT_DNS/LOGICAL_DNS clusters)
+	credentialSocket        bool   // proxy has the workload credential SDS socket
+	fileCredentialSocket    bool   // proxy has the file credential SDS socket
 
 	// service attributes
 	http2          bool // http2 identifies if the cluster is for an http2 service
@@ -89,6 +91,10 @@ func (t *clusterCache) Key() any {
 	h.WriteString(strconv.FormatBool(t.hbone))
 	h.Write(Separator)
 	h.WriteString(t.dnsLookupFamily)
+	h.Write(Separator)
+	h.WriteString(strconv.FormatBool(t.credentialSocket))
+	h.Write(Separator)
+	h.WriteString(strconv.FormatBool(t.fileCredentialSocket))
 	h.Write(Separator)
 
 	if t.proxyView != nil {
@@ -207,6 +213,8 @@ func buildClusterKey(service *model.Service, port *model.Port, cb *ClusterBuilde
 		downstreamAuto:          cb.sidecarProxy() && port.Protocol.IsUnsupported(),
 		supportsIPv4:            cb.supportsIPv4,
 		dnsLookupFamily:         util.SelectDNSLookupFamily(cb.proxyIPAddresses).String(),
+		credentialSocket:        cb.credentialSocketExist,
+		fileCredentialSocket:    cb.fileCredentialSocketExist,
 		service:                 service,
 		destinationRule:         dr,
 		envoyFilterKeys:         efKeys,
